@@ -141,6 +141,9 @@ func init() {
 			ruleAliasReuse(p, r, p.scopeFuncs(r, "ALIAS.reuse", []string{"mxj.Map.ValuesForPath"}))
 		},
 		func(p *Prog, r *Report) {
+			ruleAccumFresh(p, r, p.scopeFuncs(r, "ACCUM.fresh", []string{"mxj.Map.ValuesForPath", "mxj.Map.ValuesForKey"}))
+		},
+		func(p *Prog, r *Report) {
 			ruleWrapCompose(p, r, []wrapSpec{{"mxj.Map.ValueForPath", []string{"mxj.Map.ValuesForPath"}, true},
 				{"mxj.Map.ValueForPathString", []string{"mxj.Map.ValuesForPath"}, true}, {"mxj.Map.Exists", []string{"mxj.Map.ValuesForPath"}, true}})
 		},
@@ -207,7 +210,7 @@ func init() {
 		func(p *Prog, r *Report) { ruleIORead(p, r, p.PkgFuncs("mxj")) },
 		func(p *Prog, r *Report) { ruleIOByteReader(p, r, p.PkgFuncs("mxj")) },
 		func(p *Prog, r *Report) { ruleIORetry(p, r, p.PkgFuncs("mxj")) },
-		ruleIOTee,
+		ruleIOTee, ruleJsonEscape,
 		func(p *Prog, r *Report) {
 			ruleLoopHandler(p, r, []string{"mxj.HandleXmlReader", "mxj.HandleXmlReaderRaw", "mxj.HandleJsonReader", "mxj.HandleJsonReaderRaw"})
 		},
@@ -263,7 +266,7 @@ func init() {
 	register("C19",
 		"Structural clauses of 'files, gob and Copy read back equal': WRAP.concat (file writers write exactly the string form, which is the concatenation of per-Map encodings), WRAP.fileloop (readers loop on the raw reader over the opened file; exits only by io.EOF or an error return carrying the Maps read so far; every decoded Map is appended), TABLE.gob (Encode/Decode type agreement; container types registered), WRAP.compose + OWN.fresh (Copy), ERR.path on the file and gob functions. Not decided: equality of what is read back; behaviour on truncated files."+levelNote,
 		nil,
-		ruleWrapConcat, ruleWrapFileLoop, ruleTableGob,
+		ruleWrapConcat, ruleWrapFileLoop, ruleTableGob, ruleJsonEscape,
 		func(p *Prog, r *Report) {
 			ruleWrapCompose(p, r, []wrapSpec{{"mxj.Map.Copy", []string{"mxj.Map.Json", "mxj.NewMapJson"}, false}})
 		},
